@@ -83,6 +83,9 @@ fn cmp_res(what: &str, ctx: &str, got: Result<Zoned, jiff::Error>, want: &Res, z
         (Ok(g), Res::Instant(w)) => {
             ensure!(g.timestamp().as_nanosecond() == *w, format!("{what}-wrong"), "{ctx}: {what} = {g} ({}ns) want instant {w}ns = {}", g.timestamp().as_nanosecond(), Timestamp::from_nanosecond(*w).map(|t| t.to_string()).unwrap_or_default());
             ensure!(g.time_zone() == &z.tz, format!("{what}-zone-changed"), "{ctx}: {what} changed the time zone");
+            if let Err(e) = gen::ts_sane(g.timestamp()) {
+                fail!(format!("{what}-incoherent-timestamp"), "{ctx}: {what}: {e}");
+            }
             Ok(())
         }
         (Err(_), Res::Err) => Ok(()),
